@@ -5,7 +5,9 @@ The verdict 'did not terminate within a polynomial budget' is therefore decided 
 """
 from __future__ import annotations
 
+import signal
 import sys
+import time
 
 mon = sys.monitoring
 E = mon.events
@@ -16,12 +18,24 @@ class BudgetExceeded(BaseException):
     """Not an Exception subclass: passes through `except Exception` in the decoders and in construct."""
 
 
+class CpuBudgetExceeded(BudgetExceeded):
+    """The call burnt more CPU time than any polynomial-time decode of <= 8 KiB could need (loops inside C code, e.g. a
+    backtracking regular expression, produce no interpreter events; ITIMER_VIRTUAL counts this process's own CPU time only,
+    so machine load does not matter)."""
+
+
+CPU_LIMIT_S = 20.0
+
+
 class StepBudget:
     def __init__(self):
         self.count = 0
         self.budget = 0
         self.exceeded = False
         self.armed_calls = 0
+        self.max_cpu_s = 0.0
+        self.cpu_exceeded = False
+        signal.signal(signal.SIGVTALRM, self._alarm)
         if mon.get_tool(TOOL) is None:
             mon.use_tool_id(TOOL, "vf-step-budget")
         for ev in (E.PY_START, E.JUMP, E.BRANCH):
@@ -35,12 +49,20 @@ class StepBudget:
             self.exceeded = True
             raise BudgetExceeded(f"more than {self.budget} logical steps")
 
+    def _alarm(self, signum, frame):
+        self.cpu_exceeded = True
+        self.exceeded = True
+        raise CpuBudgetExceeded(f"more than {CPU_LIMIT_S} s of CPU time")
+
     def call(self, fn, budget: int):
         """Run fn() under the budget. Returns (result, exception or None, steps used)."""
         self.count = 0
         self.budget = budget
         self.exceeded = False
         self.armed_calls += 1
+        self.cpu_exceeded = False
+        t0 = time.process_time()
+        signal.setitimer(signal.ITIMER_VIRTUAL, CPU_LIMIT_S)
         mon.set_events(TOOL, E.PY_START | E.JUMP | E.BRANCH)
         try:
             try:
@@ -50,9 +72,15 @@ class StepBudget:
                 res, exc = None, ex
         finally:
             mon.set_events(TOOL, 0)
+            signal.setitimer(signal.ITIMER_VIRTUAL, 0)
+        used = time.process_time() - t0
+        if used > self.max_cpu_s:
+            self.max_cpu_s = used
         return res, exc, self.count
 
     def close(self):
+        signal.setitimer(signal.ITIMER_VIRTUAL, 0)
+        signal.signal(signal.SIGVTALRM, signal.SIG_DFL)
         mon.set_events(TOOL, 0)
         for ev in (E.PY_START, E.JUMP, E.BRANCH):
             mon.register_callback(TOOL, ev, None)
